@@ -1,7 +1,7 @@
 /-
 Props/C06.lean — each output element depends only on its own source, path index and observer.
 -/
-import MagpyVerif.Lemmas.Level2Compose
+import MagpyVerif.Lemmas.Level2Shape
 namespace MagpyVerif.C06
 open MagpyVerif MagpyVerif.Level2
 variable {G V : Type}
@@ -63,6 +63,123 @@ theorem output_element (flipX : V → V) (entries : List (Entry G V)) (sensors :
   simp only [pixPos, hr, hp, List.getElem?_map, hj, Option.map_some, specValue, sensT]
 end refines
 
+
+/-! ### shape of the returned array; squeeze -/
+section shape
+variable [Mul G] [Inv G] [One G] [SMul G V] [Add V] [Sub V] [Zero V] [BEq G]
+
+/-- **documented output shape** (`getBH_level2` with `squeeze=False`, ndarray output): whenever the
+call succeeds the array has the axes (sources, path, sensors, pixel shape…) followed by the vector
+axis of length 3 (an element of `V` here): `sources` is the number of top-level source entries (a
+Collection counts once), or 1 after `sumup`; `path` is the longest path of all sources and sensors;
+the pixel axes are the common pixel shape of the sensors (`pixel.shape[:-1]`, `(1,)` for a sensor
+without pixel), or a single axis of length 1 after `pixel_agg` (the `expand_dims(axis=-2)`). -/
+theorem getBH_shape (flipX : V → V) (vmin vmax : V → V → V) (entries : List (Entry G V))
+    (sensors : List (Sens G V)) (sumup : Bool) (agg : Agg) (out : Out V)
+    (h : getBH flipX vmin vmax entries sensors sumup false agg = .ok out) :
+    ∃ k0, sensors.head? = some k0 ∧
+      out.shape = [if sumup then 1 else entries.length,
+                   pathLen (entries.flatMap Entry.leaves) sensors, sensors.length] ++
+                  (if agg = .none then k0.pixShape else [1]) := by
+  have hok := not_bad_of_getBH_ok h
+  have hne : sensors ≠ [] := fun hs => hok (Or.inr (Or.inl hs))
+  obtain ⟨k0, ks, hks⟩ := List.exists_cons_of_ne_nil hne
+  refine ⟨k0, by rw [hks]; rfl, ?_⟩
+  rw [getBH_ok flipX vmin vmax entries sensors sumup false agg hok] at h
+  cases h
+  subst hks
+  by_cases ha : agg = .none <;> simp [shape0, ha]
+
+/-- **squeeze only drops axes of length 1**: with `squeeze=True` the call succeeds exactly when it
+does with `squeeze=False`, returns the very same data in the same order, and its shape is the
+unsqueezed shape with exactly the entries equal to 1 removed — so no element is lost, duplicated or
+moved, and the number of elements is unchanged. (The vector axis has length 3 and is never dropped.) -/
+theorem squeeze_only_drops_ones (flipX : V → V) (vmin vmax : V → V → V) (entries : List (Entry G V))
+    (sensors : List (Sens G V)) (sumup : Bool) (agg : Agg) :
+    (∀ out, getBH flipX vmin vmax entries sensors sumup false agg = .ok out →
+      getBH flipX vmin vmax entries sensors sumup true agg =
+        .ok { shape := out.shape.filter (· ≠ 1), data := out.data } ∧
+      (out.shape.filter (· ≠ 1)).prod = out.shape.prod) ∧
+    (∀ err, getBH flipX vmin vmax entries sensors sumup false agg = .error err ↔
+      getBH flipX vmin vmax entries sensors sumup true agg = .error err) := by
+  constructor
+  · intro out h
+    have hok := not_bad_of_getBH_ok h
+    rw [getBH_ok flipX vmin vmax entries sensors sumup false agg hok] at h
+    rw [getBH_ok flipX vmin vmax entries sensors sumup true agg hok]
+    cases h
+    constructor
+    · by_cases ha : agg = .none <;> simp [ha, List.filter_append]
+    · exact prod_filter_ne_one _
+  · intro err
+    rw [getBH_error_iff, getBH_error_iff]
+end shape
+
+section size
+variable [Group G] [AddCommGroup V] [DistribMulAction G V] [BEq G] [LawfulBEq G]
+
+/-- **shape and data agree**: for well-formed sensors (non-empty pose path, as many pixel offsets as
+the pixel shape says) the returned flat data has exactly `prod(shape)` elements, and the element at
+row-major position `((l*M + m)*K + k)*P + p` is the `[l][m][k][p]` entry of the array after
+pixel_agg / sumup — in particular (no sumup, no pixel_agg) the `[l][m][k][p]` entry of the tensor
+that `level2_refines` specifies. -/
+theorem getBH_size (flipX : V → V) (vmin vmax : V → V → V) (entries : List (Entry G V))
+    (sensors : List (Sens G V)) (sumup : Bool) (agg : Agg) (out : Out V)
+    (hs : ∀ k ∈ sensors, k.WF)
+    (h : getBH flipX vmin vmax entries sensors sumup false agg = .ok out) :
+    out.data.length = out.shape.prod := by
+  have hok := not_bad_of_getBH_ok h
+  have hne : sensors ≠ [] := fun hs => hok (Or.inr (Or.inl hs))
+  obtain ⟨k0, ks, hks⟩ := List.exists_cons_of_ne_nil hne
+  have hk0 : sensors.head? = some k0 := by rw [hks]; rfl
+  have hrect := coreB_rect flipX vmin vmax entries sensors sumup agg hok hs k0 hk0
+  rw [getBH_ok flipX vmin vmax entries sensors sumup false agg hok] at h
+  cases h
+  simp only [Bool.false_eq_true, if_false]
+  rw [flat4_length hrect]
+  by_cases ha : agg = .none
+  · simp only [ha, if_true, shape0, headD_pixShape sensors k0 hk0, List.prod_append, List.prod_cons,
+      List.prod_nil, pixNum_eq_prod]
+    ring
+  · simp only [ha, if_false, shape0, List.prod_append, List.prod_cons, List.prod_nil]
+    ring
+
+/-- without sumup and pixel_agg the flat data is the specified tensor in row-major order -/
+theorem getBH_data_is_tensor (flipX : V → V) (vmin vmax : V → V → V) (entries : List (Entry G V))
+    (sensors : List (Sens G V)) (out : Out V) (hs : ∀ k ∈ sensors, k.WF)
+    (h : getBH flipX vmin vmax entries sensors false false .none = .ok out)
+    (i m n j : Nat) (e : Entry G V) (k : Sens G V) (r : G) (p px : V)
+    (hi : entries[i]? = some e) (hm : m < pathLen (entries.flatMap Entry.leaves) sensors)
+    (hn : sensors[n]? = some k) (hr : clampGet k.ori m = some r) (hp : clampGet k.pos m = some p)
+    (hj : k.pixels[j]? = some px) :
+    out.data[((i * pathLen (entries.flatMap Entry.leaves) sensors + m) * sensors.length + n) *
+        pixNum k + j]? =
+      some (let v := r⁻¹ • ((e.leaves.map fun s => level1 s m (r • px + p)).sum)
+            if k.left then flipX v else v) := by
+  have hok := not_bad_of_getBH_ok h
+  have hne : sensors ≠ [] := fun hs => hok (Or.inr (Or.inl hs))
+  obtain ⟨k0, ks, hks⟩ := List.exists_cons_of_ne_nil hne
+  have hk0 : sensors.head? = some k0 := by rw [hks]; rfl
+  have hkmem : k ∈ sensors := List.mem_of_getElem? hn
+  have hk0mem : k0 ∈ sensors := by rw [hks]; simp
+  have hP : pixNum k = pixNum k0 := by
+    apply pixNum_congr
+    by_contra hne
+    exact hok (Or.inr (Or.inr (Or.inr ⟨rfl, k, hkmem, k0, hk0mem, hne⟩)))
+  have he : ∀ e ∈ entries, e.leaves ≠ [] := fun e he hl => hok (Or.inr (Or.inr (Or.inl ⟨e, he, hl⟩)))
+  have hrect := coreB_rect flipX vmin vmax entries sensors false .none hok hs k0 hk0
+  rw [getBH_ok flipX vmin vmax entries sensors false false .none hok] at h
+  cases h
+  simp only [if_true] at hrect
+  have hjlt : j < pixNum k0 := by
+    rw [← hP, ← (hs k hkmem).2.2]; exact (List.getElem?_eq_some_iff.mp hj).1
+  have hnlt : n < sensors.length := (List.getElem?_eq_some_iff.mp hn).1
+  rw [hP, flat4_getElem? hrect i m n j hm hnlt hjlt]
+  simp only [coreB, Bool.false_eq_true, if_false, if_true, id]
+  rw [tensor_eq_spec flipX entries sensors he hs]
+  exact specTensor_elem flipX entries sensors i m n j e k r p px hi hm hn hr hp hj
+end size
+
 -- non-vacuity: the hypotheses of `level2_refines` are met by a concrete scene (one bare source, one
 -- collection of two, two sensors with different pixel counts)
 example :
@@ -80,5 +197,21 @@ example :
   · intro k hk
     simp only [List.mem_cons, List.not_mem_nil, or_false] at hk
     rcases hk with rfl | rfl <;> simp [pixNum]
+
+-- non-vacuity of `getBH_shape` / `getBH_size` / `squeeze_only_drops_ones` on the scene
+-- `Level2.Example` (one bare source, one collection of two, path lengths 1 and 2, two sensors with
+-- pixel shape (2,)): the call succeeds, with shape (2, 2, 2, 2) resp. (1, 2, 2, 1) resp. (2, 2)
+open Level2.Example in
+example : ∃ out, getBH exFlip exMin exMax exEntries exSensors false false .none = .ok out ∧
+    out.shape = [2, 2, 2, 2] :=
+  ⟨_, getBH_ok _ _ _ _ _ _ _ _ (exNotBad _), by simp [shape0, exPathLen]; simp [exEntries, exSensors]⟩
+open Level2.Example in
+example : ∃ out, getBH exFlip exMin exMax exEntries exSensors true false .sum = .ok out ∧
+    out.shape = [1, 2, 2, 1] :=
+  ⟨_, getBH_ok _ _ _ _ _ _ _ _ (exNotBad _), by simp [shape0, exPathLen]; simp [exSensors]⟩
+open Level2.Example in
+example : ∃ out, getBH exFlip exMin exMax exEntries exSensors true true .sum = .ok out ∧
+    out.shape = [2, 2] :=
+  ⟨_, getBH_ok _ _ _ _ _ _ _ _ (exNotBad _), by simp [shape0, exPathLen]; simp [exSensors]⟩
 
 end MagpyVerif.C06
